@@ -235,7 +235,7 @@ CFG_TRUST = ['CFG._productions is taken to be a set (what every constructor call
              'language preservation of the clean-up steps from their proved structure: textbook theorems (Hopcroft-Motwani-Ullman 7.2, 7.7, 7.13), assumed, backed by the bounded language comparison']
 mixed('C09', ['CFG.get_reachable_symbols', 'CFG.get_unit_pairs', 'CFG.eliminate_unit_productions', 'CFG.remove_useless_symbols', 'fn.get_productions_d'], [],
       'Deductive for get_reachable_symbols (= closure of "occurs in a body of"), get_unit_pairs (= unit-derivability from every variable), eliminate_unit_productions (exactly the non-unit bodies of every unit-reachable variable, and no unit production in the result), remove_useless_symbols (modular: given the assumed contract of get_generating_symbols the result keeps exactly the productions over generating symbols whose head is reachable, and only generating and reachable symbols) and the helper get_productions_d.',
-      'contract-based deductive verification (pyvc + z3) of the structural CFG clean-up functions; bounded run-time contract checking for nullable/generating counters, epsilon removal, terminal lifting, binarisation and for the language statements', CFG_TRUST + ['contract of CFG.get_generating_symbols is ASSUMED at the call site in remove_useless_symbols (counter-based worklist: bounded only)'])
+      'contract-based deductive verification (pyvc + z3) of the structural CFG clean-up functions; bounded run-time contract checking for nullable/generating counters, epsilon removal, terminal lifting, binarisation and for the language statements', CFG_TRUST + ['get_generating_symbols is proved in contracts/cfg_gen.py (worklist with counters, against the least-set spec GNS); assumed there: the contract of the table builder CFG._set_impacts_and_remaining_lists (one counter cell per non-empty production initialised with the body length, one _impacts entry per body position), the four List.countP / List.count facts proved in bridge/count.lean, the induction principle of the least set (one instance), and that the memo fields hold None or the computed set'])
 mixed2('C10', [('contracts.cfg', 'CFG.reverse'), ('contracts.cfg', 'CFG.__invert__')] + [('contracts.cfg_subst', k) for k in ('CFG.substitute', 'CFG.union', 'CFG.concatenate', 'CFG.get_closure', 'CFG.get_positive_closure', 'CFG.__or__', 'CFG.__add__')], ['bridge/cfgrev.lean'],
       'Deductive for CFG.reverse: the result has exactly the productions with reversed bodies, same symbols and start symbol (all grammars); Mathlib ContextFreeGrammar.language_reverse gives the mirror language. '
       'Deductive for CFG.substitute: the result is exactly one renamed copy of the host productions, with every substituted terminal replaced by the renamed start symbol of its grammar, plus one renamed copy of the productions of every substituted grammar, under renamings proved injective with pairwise disjoint ranges (ghost results R0, G, FR) - for every host, every substitution, operands sharing names or being the same object. '
@@ -245,9 +245,9 @@ mixed2('C10', [('contracts.cfg', 'CFG.reverse'), ('contracts.cfg', 'CFG.__invert
                        'Variable(str(v.value) + "#SUBS#" + str(idx)) is an uninterpreted function of (v, idx) whose idx can be read back from the name (string fact, assumed); Variable("...") / Terminal("...") with different texts are different values',
                        'sequence extensionality is used through explicit instances (valid in the theory of sequences); pointwise facts about list.append and a theory lemma about seq[lo:] are added by the engine',
                        'the operator forms __or__, __add__, __invert__ are proved as delegations with the postcondition of union, concatenate, reverse'])
-mixed('C12', ['CFG.is_empty', 'CFG.get_reachable_symbols'], [],
-      'Deductive for get_reachable_symbols (exactly the symbols occurring in a sentential form derivable from the start symbol, by closure induction) and is_empty (modular: start symbol not in the assumed result of get_generating_symbols).',
-      'contract-based deductive verification (pyvc + z3) for reachability and the emptiness wrapper; bounded run-time contract checking for generating/nullable sets, finiteness (networkx) and word enumeration', CFG_TRUST[:2] + ['contract of CFG.get_generating_symbols is ASSUMED at the call site in is_empty'])
+mixed2('C12', [('contracts.cfg', 'CFG.is_empty'), ('contracts.cfg', 'CFG.get_reachable_symbols')] + [('contracts.cfg_gen', k) for k in ('CFGGen._get_generating_or_nullable', 'CFGGen.get_generating_symbols', 'CFGGen.get_nullable_symbols')], ['bridge/count.lean'],
+      'Deductive for get_reachable_symbols (exactly the symbols occurring in a sentential form derivable from the start symbol, by closure induction), for get_generating_symbols and get_nullable_symbols (the counter worklist _get_generating_or_nullable returns exactly the least set containing the terminals - resp. nothing - and the head of every production whose body lies in it; the memoising wrappers return it and keep their memo consistent), and for is_empty (start symbol not generating).',
+      'contract-based deductive verification (pyvc + z3, Mathlib for the counting facts) for reachability, generating / nullable symbols and emptiness; bounded run-time contract checking for finiteness (networkx) and word enumeration', CFG_TRUST[:2] + ['get_generating_symbols is proved in contracts/cfg_gen.py (worklist with counters, against the least-set spec GNS); assumed there: the contract of the table builder CFG._set_impacts_and_remaining_lists (one counter cell per non-empty production initialised with the body length, one _impacts entry per body position), the four List.countP / List.count facts proved in bridge/count.lean, the induction principle of the least set (one instance), and that the memo fields hold None or the computed set'])
 
 mixed2('C13', [('contracts.pda', k) for k in ('fn.get_next_free[State]', 'fn.get_next_free[StackSymbol]', 'PDA.to_final_state', 'PDA.to_empty_stack')]
        + [('contracts.cfg2pda', 'PDA.add_transition'), ('contracts.cfg2pda', 'CFG.to_pda'), ('contracts.cfg_creator', 'CfgCreatorC.get_stack_symbol_from')], [],
